@@ -1,9 +1,44 @@
 import Pose.Wire
 import Pose.Driver.Lie
-/-! Driver ops for C02. -/
+import Pose.Model.LogExp
+/-!
+# Driver ops for C02 (Log is the principal inverse of Exp)
+
+`<Type>.<op> <eps> nums…` in PyPose storage order, like the ops of `Pose/Driver/Lie.lean`.
+Single `Log` / `Exp` / `Inv` / `rxso3.Ws` / `so3.JlInv` are served by `opsLie`; here are the compositions
+the property is about, the regime classifiers and the determinant guard of `Sim3_Log`.
+-/
 namespace PP.Driver
 open PP Wire
 
-def opsC02 : List (String × Handler) := []
+def nat1 (n : Nat) : List B := [BigF.ofNat n]
+
+def opsC02 : List (String × Handler) := [
+  -- Exp ∘ Log
+  ("SO3.ExpLog", withEps 4 fun e l => (SO3ExpLog e (qt l)).toList),
+  ("SE3.ExpLog", withEps 7 fun e l => (SE3ExpLog e (toSE3 l)).toList),
+  ("RxSO3.ExpLog", withEps 5 fun e l => (RxSO3ExpLog e (toRx l)).toList),
+  ("Sim3.ExpLog", withEps 8 fun e l => (Sim3ExpLog e (toSim l)).toList),
+  -- Log ∘ Exp
+  ("so3.LogExp", withEps 3 fun e l => (so3LogExp e (v3 l)).toList),
+  ("se3.LogExp", withEps 6 fun e l => (se3LogExp e (tose3 l)).toList),
+  ("rxso3.LogExp", withEps 4 fun e l => (rxso3LogExp e (torx l)).toList),
+  ("sim3.LogExp", withEps 7 fun e l => (sim3LogExp e (tosim l)).toList),
+  -- Log of the element with the negated quaternion
+  ("SO3.LogNeg", withEps 4 fun e l => (SO3LogNeg e (qt l)).toList),
+  ("SE3.LogNeg", withEps 7 fun e l => (SE3LogNeg e (toSE3 l)).toList),
+  ("RxSO3.LogNeg", withEps 5 fun e l => (RxSO3LogNeg e (toRx l)).toList),
+  ("Sim3.LogNeg", withEps 8 fun e l => (Sim3LogNeg e (toSim l)).toList),
+  -- Log of the inverse
+  ("SO3.LogInv", withEps 4 fun e l => (SO3LogInv e (qt l)).toList),
+  ("SE3.LogInv", withEps 7 fun e l => (SE3LogInv e (toSE3 l)).toList),
+  ("RxSO3.LogInv", withEps 5 fun e l => (RxSO3LogInv e (toRx l)).toList),
+  ("Sim3.LogInv", withEps 8 fun e l => (Sim3LogInv e (toSim l)).toList),
+  -- regimes / guard
+  ("SO3.LogRegime", withEps 4 fun e l => nat1 (so3LogRegime e (qt l))),
+  ("rxso3.WsRegime", withEps 2 fun e l => nat1 (rxso3WsRegime e (l.getD 0 default) (l.getD 1 default))),
+  ("Sim3.LogDet", withEps 8 fun e l => [sim3LogDet e (toSim l)]),
+  ("rxso3.WsInv", withEps 4 fun e l => (rxso3Ws e (torx l)).inv.toList)
+]
 
 end PP.Driver
